@@ -85,7 +85,9 @@ DEVIATIONS = [("offbyone", "Indices"), ("boundary", "NonEmpty"), ("dropflag", "F
               # frame machine: RhatInsertsSelf (compute_rhat inserts the receiver into the caller's list), ConvInPlace
               ("rhatinsertsself", "Frame"), ("rhatinsertsself_fn", "RhatFunctional"), ("convinplace", "Frame"),
               # data layouts: CastBack (statistics cast back to the number type of the stored chain), ConvKeepsType
-              ("castback", "LayoutIndependent"), ("convkeepstype", "LayoutIndependent"), ("castback_frame", "FLayoutIndependent")]
+              ("castback", "LayoutIndependent"), ("convkeepstype", "LayoutIndependent"), ("castback_frame", "FLayoutIndependent"),
+              # credibility level: Fraction (a level 0 < p <= 1 is read as a fraction of one), in both machines
+              ("fraction", "LevelLaw"), ("fraction_frame", "FLevelLaw")]
 
 RTOL = 1e-12
 # single precision layouts: numpy evaluates mean / variance / std / median of a float32 array in float32; every stored value is
@@ -130,6 +132,59 @@ def ostr(o):
 
 def frac(q):
     return Fraction(int(q[0]), int(q[1]))
+
+
+# ---------------------------------------------------------------------------------------------------------------
+# credibility levels: the spec gives a level as `pm` tenths of a percent (exact), the rational `pct` and the number types
+# `forms` in which the level can be handed over with exactly its value (LevelForms of the spec)
+LEVEL_FORMS = ("int", "float", "npint64", "npint32", "npfloat64", "npfloat32")
+
+
+def pm_of(ci):
+    """level of a ci record in tenths of a percent (cases stored before levels were rationals: integer percent)"""
+    return int(ci["pm"]) if "pm" in ci else 10 * int(ci["pct"])
+
+
+def pstr(pm):
+    """the level in percent as it appears in signatures: 95, 2.5, 0.5"""
+    return "%d" % (pm // 10) if pm % 10 == 0 else "%d.%d" % (pm // 10, pm % 10)
+
+
+def natural_form(pm):
+    return "int" if pm % 10 == 0 else "float"
+
+
+def level_value(pm, form=None):
+    """the level as a number of percent in the given number type"""
+    form = form or natural_form(pm)
+    if form == "int":
+        return pm // 10
+    if form == "float":
+        return pm / 10
+    if form == "npint64":
+        return np.int64(pm // 10)
+    if form == "npint32":
+        return np.int32(pm // 10)
+    if form == "npfloat64":
+        return np.float64(pm) / 10
+    if form == "npfloat32":
+        return np.float32(pm) / np.float32(10)
+    from cuqiverif.core import MachineryError
+    raise MachineryError("unknown number type %r of a credibility level emitted by the spec" % (form,))
+
+
+def level_forms(ci):
+    return sorted(ci.get("forms", ["int"]))
+
+
+def rotated_form(ci, k):
+    """one of the spec's number types of the level that is not the natural one, chosen by the counter k"""
+    pm = pm_of(ci)
+    others = [f for f in level_forms(ci) if f != natural_form(pm)]
+    return others[k % len(others)] if others else natural_form(pm)
+
+
+_LEVEL_COUNTER = [0]
 
 
 # ---------------------------------------------------------------------------------------------------------------
@@ -411,7 +466,10 @@ def check_stats(ctx, ck, c, real, node, member=None):
         warnings.simplefilter("ignore")
         try:
             got = {"mean": real.mean(), "median": real.median(), "variance": real.variance(), "std": real.std()}
-            cis = {ci["pct"]: (real.compute_ci(ci["pct"]), real.ci_width(ci["pct"])) for ci in stats[0]["ci"]}
+            cis = {pm_of(ci): (real.compute_ci(level_value(pm_of(ci))), real.ci_width(level_value(pm_of(ci)))) for ci in stats[0]["ci"]}
+            for ci in stats[0]["ci"]:
+                ctx.facets["level/%s/%s" % (pstr(pm_of(ci)), natural_form(pm_of(ci)))] = \
+                    ctx.facets.get("level/%s/%s" % (pstr(pm_of(ci)), natural_form(pm_of(ci))), 0) + 1
         except Exception as ex:      # noqa: BLE001
             ctx.mismatch("stats_raise/" + sig0, case, "a statistic of an array-valued sample set raised: %r" % (ex,))
             return
@@ -432,14 +490,14 @@ def check_stats(ctx, ck, c, real, node, member=None):
                 ctx.mismatch("stats/%s/%s/pos=%s" % (name, sig0, "x".join(map(str, p))), case,
                              "%s differs from the exact statistic of the stored chain" % name, exp[name], float(got[name][p]))
         for ci in s["ci"]:
-            (lohi, width) = cis[ci["pct"]]
+            (lohi, width) = cis[pm_of(ci)]
             if np.shape(lohi) != (2,) + shape or np.shape(width) != shape:
-                ctx.mismatch("stats_shape/ci/%s/pct=%d" % (sig0, ci["pct"]), case, "credible interval bounds are not "
+                ctx.mismatch("stats_shape/ci/%s/pct=%s" % (sig0, pstr(pm_of(ci))), case, "credible interval bounds are not "
                              "(lower, upper) per coordinate", [2] + list(shape), list(np.shape(lohi)))
                 return
             lo, hi, w = float(lohi[0][p]), float(lohi[1][p]), float(width[p])
             elo, ehi, ew = float(frac(ci["lo"])), float(frac(ci["hi"])), float(frac(ci["width"]))
-            tag = "%s/pct=%d/pos=%s" % (sig0, ci["pct"], "x".join(map(str, p)))
+            tag = "%s/pct=%s/pos=%s" % (sig0, pstr(pm_of(ci)), "x".join(map(str, p)))
             if not (_close(lo, elo, lay, sc) and _close(hi, ehi, lay, sc)):
                 ctx.mismatch("stats/ci/" + tag, case, "credible interval bounds differ from the percentiles "
                              "(100-p)/2 and 100-(100-p)/2 with linear interpolation", [elo, ehi], [lo, hi])
@@ -461,7 +519,7 @@ class _PltStub:
 
 
 @contextlib.contextmanager
-def _plot_capture(geom, calls):
+def _plot_capture(geom, calls, envelopes=None):
     """geometry.plot of THIS geometry object records what it is handed; pyplot of the samples module is a stub"""
     from cuqiverif.core import MachineryError
     import cuqi.samples._samples as S
@@ -471,13 +529,24 @@ def _plot_capture(geom, calls):
     def rec(values, *a, **k):
         calls.append((np.array(values, dtype=float, copy=True), a, dict(k)))
         return ["plotted"]
+
+    def rec_env(*a, **k):
+        if envelopes is not None:
+            envelopes.append((a, dict(k)))
+        return ["envelope"]
     old = S.plt
     S.plt = _PltStub()
     geom.plot = rec                         # instance attribute shadows the method for the duration of the call
+    if envelopes is not None:
+        if not callable(getattr(type(geom), "plot_envelope", None)):
+            raise MachineryError("interception point of plot_ci disappeared (Geometry.plot_envelope)")
+        geom.plot_envelope = rec_env
     try:
         yield
     finally:
         del geom.plot
+        if envelopes is not None:
+            del geom.plot_envelope
         S.plt = old
 
 
@@ -527,34 +596,52 @@ def check_views(ctx, ck, c, real, node, shape):
     # --- percent by keyword / omitted
     with warnings.catch_warnings():
         warnings.simplefilter("ignore")
-        for ci0 in stats[0]["ci"]:
-            p = ci0["pct"]
-            forms = [("kw", lambda p=p: (real.compute_ci(percent=p), real.ci_width(percent=p)))]
-            if p == node.get("default_pct"):
-                forms.append(("default", lambda: (real.compute_ci(), real.ci_width())))
-            for form, fn in forms:
+        _LEVEL_COUNTER[0] += 1
+        for k0, ci0 in enumerate(stats[0]["ci"]):
+            pm = pm_of(ci0)
+            # by keyword, in a number type other than the one of the positional call (rotating over the number types the
+            # spec lists for the level: the percentile rule takes the VALUE of the level)
+            r_ = _LEVEL_COUNTER[0] + k0
+            nt = rotated_form(ci0, r_ // 2)
+            pv = level_value(pm, nt)
+            # (with more than three levels the two methods alternate from level to level and from object to object)
+            if len(stats[0]["ci"]) <= 3:
+                forms = [("kw", nt, lambda pv=pv: (real.compute_ci(percent=pv), real.ci_width(percent=pv)))]
+            elif r_ % 2 == 0:
+                forms = [("kw", nt, lambda pv=pv: (real.compute_ci(percent=pv), None))]
+            else:
+                forms = [("kw", nt, lambda pv=pv: (None, real.ci_width(percent=pv)))]
+            if pm == node.get("default_pm", 10 * node.get("default_pct", -1)):
+                forms.append(("default", None, lambda: (real.compute_ci(), real.ci_width())))
+            for form, nt, fn in forms:
                 ctx.facets["call_form_percent_" + form] = ctx.facets.get("call_form_percent_" + form, 0) + 1
-                tag = "%s/pct=%d/form=%s" % (sig0, p, form)
+                if nt is not None:
+                    ctx.facets["level/%s/%s" % (pstr(pm), nt)] = ctx.facets.get("level/%s/%s" % (pstr(pm), nt), 0) + 1
+                tag = "%s/pct=%s/form=%s%s" % (sig0, pstr(pm), form, "" if nt in (None, natural_form(pm)) else "/type=" + nt)
+                # a level held in single precision: the percentile position carries its rounding (as for single precision chains)
+                lay_ = "f32" if nt == "npfloat32" and not is_f32(lay) else lay
                 try:
                     lohi, width = fn()
-                    lohi, width = np.asarray(lohi, dtype=float), np.asarray(width, dtype=float)
+                    lohi = None if lohi is None else np.asarray(lohi, dtype=float)
+                    width = None if width is None else np.asarray(width, dtype=float)
                 except Exception as ex:      # noqa: BLE001
                     ctx.mismatch("stats_raise/ci/" + tag, case, "compute_ci / ci_width raised: %r" % (ex,))
                     continue
-                if lohi.shape != (2,) + shape or width.shape != shape:
+                if (lohi is not None and lohi.shape != (2,) + shape) or (width is not None and width.shape != shape):
                     ctx.mismatch("stats_shape/ci/" + tag, case, "credible interval bounds are not (lower, upper) per coordinate",
-                                 [2] + list(shape), list(lohi.shape))
+                                 [2] + list(shape), list((lohi if lohi is not None else width).shape))
                     continue
                 for s in stats:
                     q = tuple(s["pos"])
-                    ci = [x for x in s["ci"] if x["pct"] == p][0]
+                    ci = [x for x in s["ci"] if pm_of(x) == pm][0]
                     elo, ehi, ew = float(frac(ci["lo"])), float(frac(ci["hi"])), float(frac(ci["width"]))
                     sc = stat_scale(s)
-                    if not (_close(float(lohi[0][q]), elo, lay, sc) and _close(float(lohi[1][q]), ehi, lay, sc)):
+                    if lohi is not None and not (_close(float(lohi[0][q]), elo, lay_, sc) and _close(float(lohi[1][q]), ehi, lay_, sc)):
                         ctx.mismatch("stats/ci/%s/pos=%s" % (tag, "x".join(map(str, q))), case, "credible interval bounds differ from the "
-                                     "percentiles (100-p)/2 and 100-(100-p)/2 (percent %s)" % ("omitted: documented default 95" if form == "default" else "by keyword"),
+                                     "percentiles (100-p)/2 and 100-(100-p)/2 (percent %s)" % (
+                                         "omitted: documented default 95" if form == "default" else "= %r by keyword" % (pv,)),
                                      [elo, ehi], [float(lohi[0][q]), float(lohi[1][q])])
-                    if not _close(float(width[q]), ew, lay, sc):
+                    if width is not None and not _close(float(width[q]), ew, lay_, sc):
                         ctx.mismatch("stats/ci_width/%s/pos=%s" % (tag, "x".join(map(str, q))), case, "interval width is not upper - lower bound",
                                      ew, float(width[q]))
     # --- statistic plots
@@ -569,12 +656,21 @@ def check_views(ctx, ck, c, real, node, shape):
         return A
     psc = max(stat_scale(s) for s in pstats)
     patol = {True: F32_SLACK * EPS32 * psc * psc, False: F32_SLACK * EPS32 * psc} if is_f32(lay) else {True: 0.0, False: 0.0}
-    plots = [("plot_mean", (), arr(lambda s: float(frac(s["mean"])))), ("plot_median", (), arr(lambda s: float(frac(s["med"])))),
-             ("plot_variance", (), arr(lambda s: float(frac(s["var"])))), ("plot_std", (), arr(lambda s: math.sqrt(float(frac(s["var"])))))]
+    plots = [("plot_mean", (), arr(lambda s: float(frac(s["mean"]))), "", None), ("plot_median", (), arr(lambda s: float(frac(s["med"]))), "", None),
+             ("plot_variance", (), arr(lambda s: float(frac(s["var"]))), "", None),
+             ("plot_std", (), arr(lambda s: math.sqrt(float(frac(s["var"])))), "", None)]
     for k, ci0 in enumerate(pstats[0]["ci"]):
-        plots.append(("plot_ci_width", (ci0["pct"],), arr(lambda s, k=k: float(frac(s["ci"][k]["width"])))))
-    for name, args, want in plots:
-        tag = "%s/%s%s" % (name, sig0, "/pct=%d" % args[0] if args else "")
+        # the level positionally, in a number type that rotates over all those the spec lists for it (with more than three
+        # levels: every second level, alternating from object to object)
+        r_ = _LEVEL_COUNTER[0] + k
+        if len(pstats[0]["ci"]) > 3 and r_ % 2:
+            continue
+        nt = level_forms(ci0)[(r_ // 2) % len(level_forms(ci0))]
+        ctx.facets["level/%s/%s" % (pstr(pm_of(ci0)), nt)] = ctx.facets.get("level/%s/%s" % (pstr(pm_of(ci0)), nt), 0) + 1
+        plots.append(("plot_ci_width", (level_value(pm_of(ci0), nt),), arr(lambda s, k=k: float(frac(s["ci"][k]["width"]))),
+                      "/pct=%s%s" % (pstr(pm_of(ci0)), "" if nt == natural_form(pm_of(ci0)) else "/type=" + nt), nt))
+    for name, args, want, ptag, nt in plots:
+        tag = "%s/%s%s" % (name, sig0, ptag)
         calls = []
         ctx.facets["statistic_plots"] = ctx.facets.get("statistic_plots", 0) + 1
         try:
@@ -591,12 +687,78 @@ def check_views(ctx, ck, c, real, node, shape):
             ctx.mismatch("plot_handover/" + tag, case, "the statistic plot did not hand anything to geometry.plot", want, None)
             continue
         vals, _a, kw = calls[0]
-        if vals.shape != want.shape or not np.allclose(vals, want, rtol=RTOL, atol=patol[name == "plot_variance"]):
+        atol = patol[name == "plot_variance"]
+        if nt == "npfloat32" and not is_f32(lay):
+            atol = F32_SLACK * EPS32 * psc
+        if vals.shape != want.shape or not np.allclose(vals, want, rtol=RTOL, atol=atol):
             ctx.mismatch("plot_handover/" + tag, case, "the values handed to geometry.plot are not the exact statistic of the stored chain "
                          "(as function values for function samples in vector form)", want, vals)
         elif bool(kw.get("is_par", True)) != bool(node["plot"]["is_par"]):
             ctx.mismatch("plot_handover/%s/is_par" % tag, case, "geometry.plot is told the wrong representation of the statistic",
                          node["plot"]["is_par"], kw.get("is_par", "omitted (True)"))
+    # --- plot_ci(p) of PARAMETER samples: whatever is handed to geometry.plot_envelope is the pair (lower, upper) of exact bounds of
+    # level p, whatever is handed to geometry.plot as parameter values is the exact mean, lower bound, upper bound or width.  How
+    # the figure is composed (which of them, in which order, on which axes) is not asserted; function samples: not asserted
+    # (bounds of vector-form function samples are handed over unconverted - undocumented).
+    if o["par"]:
+        mean = arr(lambda s: float(frac(s["mean"])))
+        for k, ci0 in enumerate(stats[0]["ci"]):
+            pm = pm_of(ci0)
+            r_ = _LEVEL_COUNTER[0] + k
+            if len(stats[0]["ci"]) > 3 and r_ % 4 != 1:      # every fourth level, rotating from object to object
+                continue
+            nt = level_forms(ci0)[(r_ // 4) % len(level_forms(ci0))]
+            ctx.facets["level/%s/%s" % (pstr(pm), nt)] = ctx.facets.get("level/%s/%s" % (pstr(pm), nt), 0) + 1
+            tag = "plot_ci/%s/pct=%s%s" % (sig0, pstr(pm), "" if nt == natural_form(pm) else "/type=" + nt)
+            lo, hi = arr(lambda s, k=k: float(frac(s["ci"][k]["lo"]))), arr(lambda s, k=k: float(frac(s["ci"][k]["hi"])))
+            wd = arr(lambda s, k=k: float(frac(s["ci"][k]["width"])))
+            atol = F32_SLACK * EPS32 * psc if (is_f32(lay) or nt == "npfloat32") else 0.0
+            calls, envs = [], []
+            try:
+                with warnings.catch_warnings(), contextlib.redirect_stdout(io.StringIO()), _plot_capture(real.geometry, calls, envs):
+                    warnings.simplefilter("ignore")
+                    real.plot_ci(level_value(pm, nt))
+            except Exception as ex:      # noqa: BLE001
+                from cuqiverif.core import MachineryError
+                if isinstance(ex, MachineryError):
+                    raise
+                ctx.observations.setdefault("plot_ci_raised", {}).setdefault(c["g"], repr(ex))
+                continue
+            ctx.facets["plot_ci_calls"] = ctx.facets.get("plot_ci_calls", 0) + 1
+
+            def same(a, b):
+                try:
+                    a = np.asarray(a, dtype=float)
+                except Exception:        # noqa: BLE001
+                    return False
+                return a.shape == b.shape and np.allclose(a, b, rtol=RTOL, atol=atol)
+            judged = 0
+            for a_, kw_ in envs:
+                if not kw_.get("is_par", True):
+                    continue
+                pair = list(a_[:2]) if len(a_) >= 2 else [kw_.get("lo_values"), kw_.get("hi_values")]
+                if pair[0] is None or pair[1] is None:
+                    continue
+                judged += 1
+                if not (same(pair[0], lo) and same(pair[1], hi)):
+                    ctx.mismatch("plot_handover/%s/envelope" % tag, case, "the envelope handed to geometry.plot_envelope by plot_ci(p) is not "
+                                 "(lower, upper) = the percentiles (100-p)/2 and 100-(100-p)/2 of the stored chain", [lo, hi],
+                                 [np.asarray(pair[0], dtype=float), np.asarray(pair[1], dtype=float)])
+                    break
+            else:
+                for vals, _a, kw_ in calls:
+                    if not kw_.get("is_par", True) or vals.shape != mean.shape:
+                        continue
+                    judged += 1
+                    if not any(same(vals, w_) for w_ in (mean, lo, hi, wd)):
+                        ctx.mismatch("plot_handover/%s/values" % tag, case, "parameter values handed to geometry.plot by plot_ci(p) are neither the "
+                                     "mean nor the lower bound, upper bound or width of the interval of level p",
+                                     {"mean": mean, "lo": lo, "hi": hi, "width": wd}, vals)
+                        break
+            if judged:
+                ctx.facets["plot_ci_judged"] = ctx.facets.get("plot_ci_judged", 0) + 1
+            if envs:
+                ctx.facets["plot_ci_envelopes"] = ctx.facets.get("plot_ci_envelopes", 0) + 1
 
 
 # ---------------------------------------------------------------------------------------------------------------
@@ -1021,9 +1183,12 @@ def frame_call(world, op, pcts):
             real = world.heap[op["r"] - 1]
             if name == "stat":
                 out = {"mean": real.mean(), "median": real.median(), "variance": real.variance(), "std": real.std()}
-                for p_ in pcts:
-                    out["ci/%d" % p_] = real.compute_ci(p_)
-                    out["ci_width/%d" % p_] = real.ci_width(p_)
+                for k_, (p_, forms_) in enumerate(pcts):
+                    # the level in a number type that rotates with the number of calls of the walk (LevelForms of the spec)
+                    nt = forms_[(len(world.ops) + k_) % len(forms_)]
+                    out["ci/%s" % pstr(p_)] = real.compute_ci(level_value(p_, nt))
+                    out["ci_width/%s" % pstr(p_)] = real.ci_width(level_value(p_, nt))
+                    out["type/%s" % pstr(p_)] = nt
                 return out
             if name == "ess":
                 return real.compute_ess()
@@ -1078,9 +1243,11 @@ def frame_compare(ctx, graph, world, e, got, tag, case):
             exp = {"mean": float(frac(s["mean"])), "median": float(frac(s["med"])), "variance": float(frac(s["var"])),
                    "std": math.sqrt(float(frac(s["var"])))}
             for ci in s["ci"]:
-                exp["ci/%d" % ci["pct"]] = [float(frac(ci["lo"])), float(frac(ci["hi"]))]
-                exp["ci_width/%d" % ci["pct"]] = float(frac(ci["width"]))
+                exp["ci/%s" % pstr(pm_of(ci))] = [float(frac(ci["lo"])), float(frac(ci["hi"]))]
+                exp["ci_width/%s" % pstr(pm_of(ci))] = float(frac(ci["width"]))
             for nm, ex_ in exp.items():
+                # a level handed over in single precision: tolerance of the single precision layouts
+                lay_ = "f32" if got.get("type/" + nm.split("/")[-1]) == "npfloat32" and not is_f32(world.lay) else world.lay
                 arr = np.asarray(got[nm], dtype=float)
                 try:
                     val = [float(arr[0][p]), float(arr[1][p])] if nm.startswith("ci/") else float(arr[p])
@@ -1088,7 +1255,7 @@ def frame_compare(ctx, graph, world, e, got, tag, case):
                     ctx.mismatch("stats_shape/%s/%s" % (nm, tag), case, "statistic is not per coordinate over the sample axis",
                                  list(p), list(arr.shape))
                     return False
-                if not _num_close(val, ex_, world.lay, sc * sc if nm == "variance" else sc):
+                if not _num_close(val, ex_, lay_, sc * sc if nm == "variance" else sc):
                     ctx.mismatch("stats/%s/%s/pos=%s" % (nm, tag, "x".join(map(str, p))), case,
                                  "%s differs from the exact statistic of the stored chain" % nm, ex_, val)
                     ok = False
@@ -1346,7 +1513,10 @@ def _fgraph(ctx, tier):
             cases += res.cases
             _t.cleanup(res)
         g = FrameGraph(cases)
-        pcts = sorted({ci["pct"] for k in cases if k["kind"] == "fnode" for ci in k["stats"][0]["ci"]})
+        # number types of the level used by the frame replay: those with exactly the float64 value of the level, so that a
+        # repeated call in another number type must return bit-identical bounds (single precision: main replay only)
+        pcts = sorted({(pm_of(ci), tuple(f for f in level_forms(ci) if f != "npfloat32")) for k in cases if k["kind"] == "fnode"
+                       for ci in k["stats"][0]["ci"]})
         if not g.nodes or not g.edges:
             raise MachineryError("SamplesOps (frame machine) emitted no nodes / edges")
         _FGRAPHS[tier] = (g, pcts)
@@ -1559,6 +1729,15 @@ def run(ctx, only=None):
         miss = sorted({k[3] for k in graph.configs if not ctx.facets.get("stats_layout_" + k[3])})
         if miss or len({k[3] for k in graph.configs}) < 2:
             raise MachineryError("vacuous layout dimension: no statistics replayed for the layouts %r" % (miss,))
+        # credibility levels: every level of the cfg in every number type the spec lists for it; the boundary and the small
+        # levels (0, 0.5, 1 percent: the levels a reading as "fraction of one" would alter) must be among them
+        want = {(pm_of(ci), f) for nd in graph.nodes.values() for ci in nd["stats"][0]["ci"] for f in level_forms(ci)}
+        miss = sorted(k for k in want if not ctx.facets.get("level/%s/%s" % (pstr(k[0]), k[1])))
+        pms = {k[0] for k in want}
+        if miss or not {0, 1000} <= pms or not any(0 < m < 10 for m in pms) or 10 not in pms or not ctx.facets.get("plot_ci_judged"):
+            raise MachineryError("vacuous level dimension: levels (tenths of a percent) %r, not replayed %r, plot_ci judged %r"
+                                 % (sorted(pms), miss, ctx.facets.get("plot_ci_judged")))
+        ctx.observe("levels_replayed", {k[6:]: ctx.facets[k] for k in sorted(ctx.facets) if k.startswith("level/")})
         ctx.observe("layouts_replayed", {k: ctx.facets[k] for k in sorted(ctx.facets) if k.startswith("stats_layout_") or k.startswith("frame_layout_")})
     n_trace = run_traces(ctx) if only is None else 0
     cand = [k for k in sorted(graph.nodes) if k[1][3] == "imgF" and not k[1][1] and not k[1][2] and len(k[1][0]) == 3]
